@@ -296,6 +296,53 @@ def r16_6(ctx, counts) -> RuleResult:
     return res
 
 
+def r16_8(ctx, counts) -> RuleResult:
+    """a placeholder is a `?` token WITHOUT operands; with operands it is a lookup"""
+    model: Model = ctx.model
+    res = RuleResult(
+        'R16.8', 'PLACEHOLDER-IS-BARE-QUESTION-MARK',
+        'The token `?` is both the argument placeholder of a partial application (no operands) '
+        'and the lookup operator of XPath 3.1 (`$m?key`, `?key`: one or two operands). Every '
+        'test that turns a call into a partial function — an `if` whose body calls '
+        'to_partial_function() — compares the symbol with "?" AND requires the token to have no '
+        'operands (`not tk`, `len(tk) == 0`), like its siblings do; with the symbol test alone '
+        '`xs:float($m?k)` becomes a partial function instead of a cast.')
+    n = 0
+    for f in sorted(model.all_functions(), key=lambda q: q.key):
+        for st in walk_local(f.node):
+            if not isinstance(st, ast.If):
+                continue
+            if not any(isinstance(c, ast.Call) and isinstance(c.func, ast.Attribute)
+                       and c.func.attr == 'to_partial_function'
+                       for b in st.body for c in ast.walk(b)):
+                continue
+            cmps = [c for c in ast.walk(st.test) if isinstance(c, ast.Compare)
+                    and any(isinstance(k, ast.Constant) and k.value == '?' for k in c.comparators)
+                    and isinstance(c.left, ast.Attribute) and c.left.attr == 'symbol']
+            if not cmps:
+                continue
+            n += 1
+            subjects = {stmt_text(c.left.value) for c in cmps}
+            bare = all(any(
+                (isinstance(x, ast.UnaryOp) and isinstance(x.op, ast.Not) and stmt_text(x.operand) == sub)
+                or (isinstance(x, ast.Compare) and stmt_text(x.left) == f'len({sub})')
+                for x in ast.walk(st.test)) for sub in subjects)
+            res.instances.append(f'{f.key}: `{stmt_text(st.test)[:60]}` requires a token without '
+                                 f'operands={bare}')
+            if bare:
+                res.ok()
+            else:
+                res.fail(finding('R16.8', f, st, 'placeholder test on the symbol only',
+                                 f'`{stmt_text(st.test)[:60]}` decides a partial application from '
+                                 f'the symbol "?" alone: a lookup expression is a `?` token too '
+                                 f'(xs:float(map{{1:2.5}}?1) became a partial function instead of '
+                                 f'2.5)'))
+    counts['placeholder_tests'] = n
+    if n < 3:
+        raise AnalysisError(f'only {n} placeholder tests located')
+    return res
+
+
 def run(ctx) -> dict:
     counts: dict[str, int] = {}
     r2 = r05_1(ctx, counts, only=set(ITEM_CODE), rule='R05.1')
@@ -305,7 +352,7 @@ def run(ctx) -> dict:
     r52 = r05_2(ctx, counts)
     r52.title = 'PARAMETER-SCOPE (R16.4 = R05.2)'
     results = [r16_1(ctx, counts), r2, r16_3(ctx, counts), r52, r16_5(ctx, counts),
-               r16_6(ctx, counts)]
+               r16_6(ctx, counts), r16_8(ctx, counts)]
     return {
         'results': results, 'counts': counts,
         'explanation':
